@@ -7,7 +7,8 @@ RULE = ("server-facing calls in five state classes (Await100 after POST+Expect; 
         "{H T P / 1 . 0 2 3 SP : ; CR LF a f 0x80 , + -} up to length 3 (quick) / 4 (thorough), placed where the call parses "
         "(start of the head, after a valid status line, start of the chunked coding, after a chunk size line), and (ii) grammar-aware "
         "mutations of valid exchanges (bit flips, deletions, duplications, splices, oversize numbers and size lines, stray CR/LF, "
-        "129+ fields, 70000-byte field name, all five close conditions at once), under all-at-once, 1-byte and random arrival "
+        "129+ fields, 70000-byte field name, all five close conditions at once, every combination of the close conditions on complete "
+        "and on truncated 3xx/403 heads), under all-at-once, 1-byte and random arrival "
         "schedules, output sizes {0,1,2,3,7,large}, boundary stop on/off, and raw (undisciplined) windows for try_response/read. "
         "After the hostile bytes every script calls proceed and the calls of the following state again. Oracle (implementation only): "
         "no panic, no hang (per-shard time limit), consumed <= offered, produced <= output space, produced bytes are a subsequence of "
@@ -243,11 +244,38 @@ def five_reasons(rng):
     return {"ops": ops, "meta": {"cls": "await100", "kind": "five-reasons", "stream": refusal.hex(), "sched": "all"}}
 
 
+def reason_products(rng):
+    """Every combination of the close conditions, on complete heads and on 3xx heads whose final CRLF is missing (returned early when a
+    Location line is complete): no combination may panic (the close-reason list has a fixed capacity)."""
+    out = []
+    import itertools
+    for rv, rclose, sclose, te, partial, st, expect in itertools.product(["1.0", "1.1"], [0, 1], [0, 1], [0, 1], [0, 1], [302, 403], [0, 1]):
+        fields = [(b"Location", b"/n")] if st == 302 else []
+        if sclose:
+            fields.append((b"Connection", b"close"))
+        if te:
+            fields.append((b"Transfer-Encoding", b"gzip"))
+        head = render_response_head("1.0" if rv == "1.0" else "1.1", st, b"S", fields)
+        if partial:
+            head = head[:-2]
+        stream = head + (b"" if partial else b"body until close")
+        hs = ([("expect", "100-continue")] if expect else []) + ([("connection", "close")] if rclose else []) + [("content-length", "2")]
+        ops = [op_new("POST", rv, "http", "a.test", "/p", hs), "proceed", "write_head #4096", "proceed", "stream %s" % hx(stream), "arrive #100000"]
+        if expect:
+            ops += ["try100", "try100", "q_keep_await", "proceed"]
+        ops += ["write_body %s #100" % hx(b"hi"), "proceed"]       # not permitted after a refusal: a no-op on both sides
+        ops += ["try_response", "try_response", "q_can_proceed", "proceed", "read #100", "read #100", "q_can_proceed", "proceed", "q_must_close",
+                "q_close_reason", "proceed", "q_must_close", "q_close_reason"]
+        _stats["kinds"]["reason-product"] = _stats["kinds"].get("reason-product", 0) + 1
+        out.append({"ops": ops, "meta": {"cls": "await100" if expect else "recv_post", "kind": "reason-product", "stream": stream.hex(), "sched": "all"}})
+    return out
+
+
 CLASSES = ["await100", "recv_get", "recv_post", "body_chunked", "body_length", "body_close"]
 
 
 def generate(rng, tier, mult):
-    out = [five_reasons(rng)]
+    out = [five_reasons(rng)] + reason_products(rng)
     maxlen = 4 if tier == "thorough" else 3
     # (i) exhaustive alphabet strings at the parse positions
     positions = {
